@@ -84,20 +84,65 @@ Proof.
     destruct i as [|i]; [lia|]. cbn [nth_error]. apply IH; lia.
 Qed.
 
+Lemma nth_error_set_at_ne {A} (x : A) : forall n l i, i <> n -> nth_error (set_at n x l) i = nth_error l i.
+Proof.
+  induction n as [|n IH]; intros l i Hi; destruct l as [|y l]; cbn [set_at]; try reflexivity.
+  - destruct i; [lia | reflexivity].
+  - destruct i as [|i]; cbn [nth_error]; [reflexivity | apply IH; lia].
+Qed.
+
+Lemma nth_error_set_at_eq {A} (x : A) : forall n l, n < length l -> nth_error (set_at n x l) n = Some x.
+Proof.
+  induction n as [|n IH]; intros l Hn; destruct l as [|y l]; cbn [set_at nth_error length] in *; try lia; [reflexivity|].
+  apply IH; lia.
+Qed.
+
+Lemma nth_error_fix_first_gap g i : 0 < i -> nth_error (fix_first_gap g) i = nth_error g i.
+Proof. intros Hi. destruct g; [reflexivity|]. destruct i; [lia | reflexivity]. Qed.
+
+Lemma nth_error_skipn_add {A} : forall n (l : list A) i, nth_error (skipn n l) i = nth_error l (n + i).
+Proof.
+  induction n as [|n IH]; intros l i; [reflexivity|]. destruct l as [|y l]; cbn [skipn Nat.add nth_error]; [now destruct i | apply IH].
+Qed.
+
+Lemma nth_error_set_range_normal b e : forall g pos i,
+  nth_error (set_range_normal b e g pos) i =
+  match nth_error g i with
+  | Some x => Some (if Nat.ltb b (pos + i) && Nat.ltb (pos + i) e then GNormal else x)
+  | None => None
+  end.
+Proof.
+  induction g as [|x g IH]; intros pos i; cbn [set_range_normal]; [now destruct i|].
+  destruct i as [|i]; cbn [nth_error]; [now rewrite Nat.add_0_r|].
+  rewrite IH. replace (S pos + i) with (pos + S i) by lia. reflexivity.
+Qed.
+
 (* ------------------------------------------------------------------ *)
 (* well-formed compositions *)
 
 Definition sel_ok (n : nat) (s : interval) : Prop := ib s < ie s /\ ie s <= n.
 Definition disjoint (a b : interval) : Prop := ie a <= ib b \/ ie b <= ib a.
 
+
+(* what the conversion graph needs of the recorded choices: a choice covers syllables only and no
+   break lies strictly inside it (then the choice's own range is an edge of the graph, C03) *)
+Definition syl_sym (c : composition) (k : nat) : Prop := exists code, nth_error (symbols c) k = Some (SymSyl code).
+Definition sel_clean (c : composition) (s : interval) : Prop :=
+  (forall k, ib s <= k < ie s -> syl_sym c k) /\ (forall k, ib s < k < ie s -> nth_error (gaps c) k <> Some GBreak).
+Definition clean (c : composition) : Prop := forall s, In s (selections c) -> sel_clean c s.
+
 Record wf_comp (c : composition) : Prop := {
   wf_gaps : length (gaps c) = length (symbols c);
   wf_sels : Forall (sel_ok (clen c)) (selections c);
-  wf_disj : ForallOrdPairs disjoint (selections c)
+  wf_disj : ForallOrdPairs disjoint (selections c);
+  wf_clean : clean c
 }.
 
 Lemma wf_comp_empty : wf_comp comp_empty.
-Proof. constructor; cbn; constructor. Qed.
+Proof. constructor; [reflexivity | constructor | constructor | intros s []]. Qed.
+
+Lemma gap_eqb_eq a b : gap_eqb a b = true <-> a = b.
+Proof. destruct a, b; cbn; split; intros H; try reflexivity; discriminate. Qed.
 
 Lemma FOP_filter {A} (R : A -> A -> Prop) f : forall l, ForallOrdPairs R l -> ForallOrdPairs R (filter f l).
 Proof.
@@ -150,17 +195,26 @@ Proof.
   destruct (Nat.eqb i 0).
   - inversion H; subst. auto.
   - inversion H; subst; clear H. cbn [symbols selections gaps]. split; [|split; [reflexivity|]].
-    + destruct W as [Wg Ws Wd]. constructor; unfold clen in *; cbn [symbols gaps selections] in *.
+    + destruct W as [Wg Ws Wd Wk]. constructor; unfold clen in *; cbn [symbols gaps selections] in *.
       * now rewrite length_set_at.
       * destruct (gap_eqb g GBreak); [now apply Forall_filter | assumption].
       * destruct (gap_eqb g GBreak); [now apply FOP_filter | assumption].
+      * intros s Hs. unfold sel_clean; cbn [symbols gaps].
+        assert (Hin : In s (selections c) /\ (gap_eqb g GBreak = true -> negb (Nat.ltb (ib s) i && Nat.ltb i (ie s)) = true)).
+        { destruct (gap_eqb g GBreak); [apply filter_In in Hs as [H1 H2]; auto | split; [exact Hs | discriminate]]. }
+        destruct Hin as (Hin & Hbr). destruct (Wk s Hin) as (K1 & K2). split; [exact K1|].
+        intros k Hk. destruct (Nat.eq_dec k i) as [->|Hne]; [|rewrite nth_error_set_at_ne by exact Hne; now apply K2].
+        intros Hg. destruct (nth_error (set_at i g (gaps c)) i) eqn:En; [|discriminate].
+        assert (Hi : i < length (gaps c)) by (rewrite <- (length_set_at g i); apply nth_error_Some; congruence).
+        rewrite nth_error_set_at_eq in En by exact Hi. assert (g = GBreak) by congruence. subst g.
+        specialize (Hbr eq_refl). apply negb_true_iff, andb_false_iff in Hbr. destruct Hbr as [Hb|Hb]; b2p; lia.
     + intros s Hs. destruct (gap_eqb g GBreak); [apply filter_In in Hs; tauto | assumption].
 Qed.
 
 Lemma insert_wf c i x c' : wf_comp c -> comp_insert c i x = Ok c' ->
   wf_comp c' /\ symbols c' = insert_at i x (symbols c) /\ i <= clen c.
 Proof.
-  intros [Wg Ws Wd] H. unfold comp_insert in H.
+  intros [Wg Ws Wd Wk] H. unfold comp_insert in H.
   destruct (Nat.ltb (clen c) i) eqn:Hi; [discriminate|]. b2p.
   inversion H; subst; clear H. cbn [symbols]. split; [|split; [reflexivity | exact Hi]].
   assert (Hlen : length (insert_at i x (symbols c)) = S (clen c)) by (apply length_insert_at; exact Hi).
@@ -182,12 +236,27 @@ Proof.
       * lia.
     + now apply Forall_filter_both.
     + now apply FOP_filter.
+  - intros s' Hs'. apply in_map_iff in Hs' as (s & <- & Hs). apply filter_In in Hs as (Hs & Kf).
+    destruct (Wk s Hs) as (K1 & K2). rewrite Forall_forall in Ws. destruct (Ws s Hs) as (S1 & S2).
+    apply negb_true_iff, andb_false_iff in Kf. unfold sel_clean, syl_sym; cbn [symbols gaps].
+    assert (G0 : forall k, k <> i -> nth_error (if negb (Nat.eqb (length (gaps c)) 0) && negb (Nat.eqb i (length (gaps c))) then set_at i GNormal (gaps c) else gaps c) k = nth_error (gaps c) k).
+    { intros k Hk. destruct (_ && _); [now apply nth_error_set_at_ne | reflexivity]. }
+    assert (L0 : length (if negb (Nat.eqb (length (gaps c)) 0) && negb (Nat.eqb i (length (gaps c))) then set_at i GNormal (gaps c) else gaps c) = length (gaps c)).
+    { destruct (_ && _); [apply length_set_at | reflexivity]. }
+    destruct (Nat.leb i (ib s)) eqn:Ei; unfold shift_iv; cbn [ib ie]; b2p.
+    + split; intros k Hk; (destruct k as [|k]; [lia|]).
+      * rewrite nth_error_insert_at_gt by (unfold clen in *; lia). apply K1. lia.
+      * rewrite nth_error_fix_first_gap by lia. rewrite nth_error_insert_at_gt by lia. rewrite G0 by lia. apply K2. lia.
+    + assert (ie s <= i) by (destruct Kf as [Kf|Kf]; b2p; lia).
+      split; intros k Hk.
+      * rewrite nth_error_insert_at_lt by (unfold clen in *; lia). now apply K1.
+      * rewrite nth_error_fix_first_gap by lia. rewrite nth_error_insert_at_lt by lia. rewrite G0 by lia. now apply K2.
 Qed.
 
 Lemma remove_wf c i c' : wf_comp c -> comp_remove c i = Ok c' ->
   wf_comp c' /\ symbols c' = remove_at i (symbols c) /\ i < clen c.
 Proof.
-  intros [Wg Ws Wd] H. unfold comp_remove in H.
+  intros [Wg Ws Wd Wk] H. unfold comp_remove in H.
   destruct (negb (Nat.ltb i (clen c))) eqn:Hi; [discriminate|]. b2p.
   inversion H; subst; clear H. cbn [symbols]. split; [|split; [reflexivity | exact Hi]].
   assert (Hlen : length (remove_at i (symbols c)) = clen c - 1) by (apply length_remove_at; exact Hi).
@@ -210,12 +279,23 @@ Proof.
       * lia.
     + now apply Forall_filter_both.
     + now apply FOP_filter.
+  - intros s' Hs'. apply in_map_iff in Hs' as (s & <- & Hs). apply filter_In in Hs as (Hs & Kf).
+    destruct (Wk s Hs) as (K1 & K2). rewrite Forall_forall in Ws. destruct (Ws s Hs) as (S1 & S2).
+    apply negb_true_iff, andb_false_iff in Kf. unfold sel_clean, syl_sym; cbn [symbols gaps].
+    destruct (Nat.leb (ib s) i) eqn:Ei; unfold unshift_iv; cbn [ib ie]; b2p.
+    + assert (ie s <= i) by (destruct Kf as [Kf|Kf]; b2p; lia).
+      split; intros k Hk.
+      * rewrite nth_error_remove_at_lt by lia. now apply K1.
+      * rewrite nth_error_fix_first_gap by lia. rewrite nth_error_remove_at_lt by lia. now apply K2.
+    + split; intros k Hk.
+      * rewrite nth_error_remove_at_ge by lia. apply K1. lia.
+      * rewrite nth_error_fix_first_gap by lia. rewrite nth_error_remove_at_ge by lia. apply K2. lia.
 Qed.
 
 Lemma remove_front_wf c n c' : wf_comp c -> comp_remove_front c n = Ok c' ->
   wf_comp c' /\ symbols c' = skipn n (symbols c) /\ n <= clen c.
 Proof.
-  intros [Wg Ws Wd] H. unfold comp_remove_front in H.
+  intros [Wg Ws Wd Wk] H. unfold comp_remove_front in H.
   destruct (Nat.ltb (clen c) n) eqn:Hn; [discriminate|]. b2p.
   inversion H; subst; clear H. cbn [symbols]. split; [|split; [reflexivity | exact Hn]].
   constructor; unfold clen in *; cbn [symbols gaps selections] in *.
@@ -228,13 +308,19 @@ Proof.
     + intros a b [[Ha1 Ha2] Ka] [[Hb1 Hb2] Kb] Hd. unfold disjoint, unshift_iv in *; cbn [ib ie]. b2p. lia.
     + now apply Forall_filter_both.
     + now apply FOP_filter.
+  - intros s' Hs'. apply in_map_iff in Hs' as (s & <- & Hs). apply filter_In in Hs as (Hs & Kf). b2p.
+    destruct (Wk s Hs) as (K1 & K2). unfold sel_clean, syl_sym, unshift_iv; cbn [symbols gaps ib ie].
+    split; intros k Hk.
+    + rewrite nth_error_skipn_add. apply K1. lia.
+    + rewrite nth_error_fix_first_gap by lia. rewrite nth_error_skipn_add. apply K2. lia.
 Qed.
 
-Lemma push_selection_wf c iv c' : wf_comp c -> ib iv < ie iv -> comp_push_selection c iv = Ok c' ->
+Lemma push_selection_wf c iv c' : wf_comp c -> ib iv < ie iv -> (forall k, ib iv <= k < ie iv -> syl_sym c k) ->
+  comp_push_selection c iv = Ok c' ->
   wf_comp c' /\ symbols c' = symbols c /\
   selections c' = filter (fun s => negb (iv_intersect s iv)) (selections c) ++ [iv].
 Proof.
-  intros [Wg Ws Wd] Hiv H. unfold comp_push_selection in H.
+  intros [Wg Ws Wd Wk] Hiv Hsyl H. unfold comp_push_selection in H.
   destruct (Nat.ltb (clen c) (ie iv)) eqn:He; [discriminate|]. b2p.
   inversion H; subst; clear H. cbn [symbols selections]. split; [|split; reflexivity].
   constructor; unfold clen in *; cbn [symbols gaps selections] in *.
@@ -244,15 +330,29 @@ Proof.
     pose proof (Forall_filter_both _ (fun s => negb (iv_intersect s iv)) _ Ws) as F.
     eapply Forall_impl; [|exact F]. cbn beta. intros s [[H1 H2] K].
     unfold iv_intersect, intersect_range in K. b2p. unfold disjoint. lia.
+  - intros s Hs. unfold sel_clean, syl_sym; cbn [symbols gaps].
+    assert (G : forall k, nth_error (set_range_normal (ib iv) (ie iv) (gaps c) 0) k = Some GBreak -> nth_error (gaps c) k = Some GBreak /\ ~ (ib iv < k < ie iv)).
+    { intros k Hk. rewrite nth_error_set_range_normal in Hk. cbn [Nat.add] in Hk. destruct (nth_error (gaps c) k) as [x|]; [|discriminate].
+      destruct (Nat.ltb (ib iv) k && Nat.ltb k (ie iv)) eqn:E; [discriminate|]. split; [congruence|].
+      apply andb_false_iff in E. destruct E as [E|E]; b2p; lia. }
+    apply in_app_or in Hs as [Hs|[<-|[]]].
+    + apply filter_In in Hs as (Hs & _). destruct (Wk s Hs) as (K1 & K2). split; [exact K1|].
+      intros k Hk Hg. apply G in Hg as (Hg & _). now apply (K2 k Hk).
+    + split; [exact Hsyl|]. intros k Hk Hg. apply G in Hg as (_ & Hg). now apply Hg.
 Qed.
 
-Lemma replace_wf c i x c' : wf_comp c -> comp_replace c i x = Ok c' ->
+Lemma replace_wf c i x c' : wf_comp c -> (exists ch, nth_error (symbols c) i = Some (SymChar ch)) ->
+  comp_replace c i x = Ok c' ->
   wf_comp c' /\ symbols c' = set_at i x (symbols c).
 Proof.
-  intros W H. unfold comp_replace in H.
+  intros W (ch & Hch) H. unfold comp_replace in H.
   destruct (negb (Nat.ltb i (clen c))) eqn:Hi; [discriminate|].
   assert (W1 : wf_comp (mkComp (set_at i x (symbols c)) (gaps c) (selections c))).
-  { destruct W as [Wg Ws Wd]. constructor; unfold clen in *; cbn [symbols gaps selections] in *; rewrite ?length_set_at; assumption. }
+  { destruct W as [Wg Ws Wd Wk]. constructor; unfold clen in *; cbn [symbols gaps selections] in *; rewrite ?length_set_at; try assumption.
+    (* the replaced symbol is a character, so it lies in no recorded choice *)
+    intros s Hs. destruct (Wk s Hs) as (K1 & K2). split; [|exact K2]. intros k Hk. unfold syl_sym; cbn [symbols].
+    destruct (Nat.eq_dec k i) as [->|Hne]; [|rewrite nth_error_set_at_ne by exact Hne; now apply K1].
+    destruct (K1 i Hk) as (code & Hc). congruence. }
   destruct (set_gap_wf _ _ _ _ W1 H) as (W2 & Hs & _). split; [exact W2 | exact Hs].
 Qed.
 
@@ -368,23 +468,25 @@ Proof.
   destruct Hf as [-> | ->]; [apply (K GGlue) | apply (K GBreak)]; exact H.
 Qed.
 
-Lemma ce_replace_spec e x e' : wf_ce e -> ce_replace e x = Ok e' ->
+Lemma ce_replace_spec e x e' : wf_ce e -> (exists ch, nth_error (symbols (inner e)) (cursor e) = Some (SymChar ch)) ->
+  ce_replace e x = Ok e' ->
   wf_ce e' /\ symbols (inner e') = set_at (cursor e) x (symbols (inner e)) /\ cursor e' = cursor e.
 Proof.
-  intros [Wi Wc] H. unfold ce_replace in H. apply with_inner_ok in H as (c & Hc & ->).
-  destruct (replace_wf _ _ _ _ Wi Hc) as (W' & Hs).
+  intros [Wi Wc] Hch H. unfold ce_replace in H. apply with_inner_ok in H as (c & Hc & ->).
+  destruct (replace_wf _ _ _ _ Wi Hch Hc) as (W' & Hs).
   cbn [inner cursor]. split; [|split; [exact Hs | reflexivity]].
   constructor; cbn [inner cursor]; [assumption|].
   unfold ce_len; cbn [inner]. unfold clen. rewrite Hs, length_set_at. exact Wc.
 Qed.
 
-Lemma ce_select_spec e iv e' : wf_ce e -> ib iv < ie iv -> ce_select e iv = Ok e' ->
+Lemma ce_select_spec e iv e' : wf_ce e -> ib iv < ie iv -> (forall k, ib iv <= k < ie iv -> syl_sym (inner e) k) ->
+  ce_select e iv = Ok e' ->
   wf_ce e' /\ symbols (inner e') = symbols (inner e) /\ cursor e' = cursor e /\
   selections (inner e') = filter (fun s => negb (iv_intersect s iv)) (selections (inner e)) ++ [iv].
 Proof.
-  intros [Wi Wc] Hiv H. unfold ce_select in H. destruct (itext iv); [discriminate|].
+  intros [Wi Wc] Hiv Hsyl H. unfold ce_select in H. destruct (itext iv); [discriminate|].
   apply with_inner_ok in H as (c & Hc & ->).
-  destruct (push_selection_wf _ _ _ Wi Hiv Hc) as (W' & Hs & Hsel).
+  destruct (push_selection_wf _ _ _ Wi Hiv Hsyl Hc) as (W' & Hs & Hsel).
   cbn [inner cursor]. split; [|split; [exact Hs | split; [reflexivity | exact Hsel]]].
   constructor; cbn [inner cursor]; [assumption|].
   unfold ce_len; cbn [inner]. unfold clen. rewrite Hs. exact Wc.
